@@ -41,8 +41,11 @@ func checkC06(c *Ctx) {
 			continue
 		}
 		mr := emissionCommon(c, p, m, mode, "R06.2")
-		c06SGR(c, p, m, mr)
+		c06SGR(c, p, m, mr, "")
+		// the same with the testing/debug-only branches included (the post-record error dump of go test / a debugger)
+		c06SGR(c, p, m, NewModeReach(p, m, mode, sessionEntries(p), false), "[debug]")
 		c06Layout(c, p, m, mr)
+		c06EveryLine(c, p, m, mr)
 		padUnbounded(c, p)
 		noScannerOnPrintPath(c, p, m, "R06.3")
 		tagWidthSetter(c, p)
@@ -65,7 +68,7 @@ func checkC06(c *Ctx) {
 	c.Floor["R06.1"] = 3
 }
 
-func c06SGR(c *Ctx, p *Prog, m *Model, mr *ModeReach) {
+func c06SGR(c *Ctx, p *Prog, m *Model, mr *ModeReach, sfx string) {
 	r := c.R
 	pi := p.Method(p.Slog, "Entry", "printImpl")
 	if pi == nil {
@@ -104,7 +107,7 @@ func c06SGR(c *Ctx, p *Prog, m *Model, mr *ModeReach) {
 		if a.entries[fn] == 0 {
 			continue
 		}
-		key := "sgr:" + strings.TrimPrefix(shortName(fn), "github.com/hedzr/is/term/color.")
+		key := "sgr" + sfx + ":" + strings.TrimPrefix(shortName(fn), "github.com/hedzr/is/term/color.")
 		if vs := violBy[fn]; len(vs) > 0 {
 			sort.Slice(vs, func(i, j int) bool { return vs[i].What < vs[j].What })
 			r.Bad("R06.1", key, p.Pos(instrPos(vs[0].Pos)), "%s (entered %s): the colour bleeds across the line break into the terminal output that follows", vs[0].What, stStr(a.entries[fn]))
@@ -112,9 +115,9 @@ func c06SGR(c *Ctx, p *Prog, m *Model, mr *ModeReach) {
 		}
 		r.Ok("R06.1", key, p.FuncPos(fn), "entered %s; leaves %s/%s for entry clean/on; no line break while a colour may be on", stStr(a.entries[fn]), stStr(a.sum[fn].exit[sgrClean]), stStr(a.sum[fn].exit[sgrOn]))
 	}
-	r.Check(exit == sgrClean, "R06.1", "sgr:record-end", p.FuncPos(pi), "the record ends in the clean state on every path", "the record can end with a colour still switched on ("+stStr(exit)+"): it recolours the terminal output that follows")
+	r.Check(exit == sgrClean, "R06.1", "sgr"+sfx+":record-end", p.FuncPos(pi), "the record ends in the clean state on every path", "the record can end with a colour still switched on ("+stStr(exit)+"): it recolours the terminal output that follows")
 	if a.nEv < 8 {
-		r.Unk("R06.1", "sgr:events", "-", "only %d constant write events seen in colored mode: the event model lost its anchors", a.nEv)
+		r.Unk("R06.1", "sgr"+sfx+":events", "-", "only %d constant write events seen in colored mode: the event model lost its anchors", a.nEv)
 	}
 }
 
@@ -248,5 +251,46 @@ func fixedMembersAlways(c *Ctx, p *Prog, m *Model, rule string, modes []Mode) {
 			}
 			r.Check(always(fn), rule, fmt.Sprintf("always[%s]:%s", mode, name), p.FuncPos(fn), "writes its member on every path", fmt.Sprintf("in %s mode %s can return without having written anything: for some record (a zero time, an empty value) a member every record has is missing", mode, name))
 		}
+	}
+}
+
+// c06EveryLine: every line of a multi-line text is handled: wherever a function of the colored print tree splits a
+// text at line breaks and then works on the pieces by index inside a loop, the loop is a full index loop over the
+// pieces (from the first to the last).
+func c06EveryLine(c *Ctx, p *Prog, m *Model, mr *ModeReach) {
+	r := c.R
+	n := 0
+	var fns []*ssa.Function
+	for fn := range mr.Blocks {
+		fns = append(fns, fn)
+	}
+	sort.Slice(fns, func(i, j int) bool { return shortName(fns[i]) < shortName(fns[j]) })
+	for _, fn := range fns {
+		for _, cs := range callsIn(fn) {
+			cal := calleeOf(cs)
+			call, isCall := cs.(*ssa.Call)
+			if cal == nil || !isCall || cal.String() != "strings.Split" {
+				continue
+			}
+			if sep, ok := constString(cs.Common().Args[1]); !ok || sep != "\n" {
+				continue
+			}
+			for _, ref := range *call.Referrers() {
+				ia, ok := ref.(*ssa.IndexAddr)
+				if !ok || !inLoop(ia.Block()) {
+					continue
+				}
+				if _, isC := constInt(ia.Index); isC {
+					continue
+				}
+				n++
+				key := fmt.Sprintf("every-line:%s#%d", shortName(fn), n)
+				r.Check(fullIndexLoop(ia.Index, call), "R06.4", key, p.Pos(instrPos(ia)), "the loop over the lines runs from the first line to the last",
+					"the loop over the lines of a multi-line text does not visit every line (it does not start at the first or stop at the last): a line is left without its indent and colour")
+			}
+		}
+	}
+	if n == 0 {
+		r.Ok("R06.4", "every-line", "-", "no function of the colored print tree indexes the pieces of a text split at line breaks")
 	}
 }
